@@ -1,5 +1,5 @@
-\* thorough: no idle timeout, no standalone stream
-SPECIFICATION MCSpec
+\* thorough (-coverage 1): no idle timeout, no standalone stream, notifications
+SPECIFICATION Spec
 CONSTANTS
   Calls = {"k1"}
   CCl = {"c1"}
@@ -15,6 +15,5 @@ CONSTANTS
   Cancels = FALSE
   AwaitHandlers = TRUE
   StopSseOnClose = TRUE
-VIEW MCView
 INVARIANTS TypeOK NothingDispatchedAfterClose RunningHandlersFinish SessionRemoved
 CHECK_DEADLOCK FALSE
